@@ -115,7 +115,7 @@ def run_scenario(ctx, binary, mc_module, obs_module, name, relevant, nontrivial,
                 ctx.nontrivial.add(vflib.digest([s["a"] for s in p["steps"]]))
         ctx.log("%s: %d states, %d transitions -> %d paths, %d steps" % (name, nstates, len(edges), len(paths), sum(len(p["steps"]) for p in paths)))
         # every path needs its own node: above the cap a seeded sample of the path cover is replayed (TLC's check stays exhaustive)
-        cap = int(os.environ.get("VERIF_MAX_PATHS", "24000"))
+        cap = int(os.environ.get("VERIF_MAX_PATHS", "24000" if ctx.tier == "thorough" else "1000000000"))
         if len(paths) > cap:
             import random
             keep = sorted(random.Random(ctx.seed).sample(range(len(paths)), cap))
